@@ -109,6 +109,19 @@ class SimPopen(PF.Popen):
 class SimProcess(BP.BaseProcess):
     _start_method = None
 
+    def __init__(self, *args, **kwargs):
+        # a per-run serial number as hash: billiard keeps process objects in sets (process._children)
+        # and iterates over them; identity hashes would make that order differ between interpreters
+        k = state.K
+        k.cfg['_proc_serial'] = self._sim_serial = k.cfg.get('_proc_serial', 0) + 1
+        super().__init__(*args, **kwargs)
+
+    def __hash__(self):
+        return self._sim_serial
+
+    def __eq__(self, other):
+        return self is other
+
     @staticmethod
     def _Popen(process_obj):
         return SimPopen(process_obj)
